@@ -187,7 +187,7 @@ theorem include_inlined (cfg : Table) (env : Env) (f : Nat) (st : St) (opt : Byt
     (htext : args.flatMap (includeTargets env) = [text])
     (hinc : runHandler cfg env (parseText cfg env (f + 1)) st opt .includeFile args = .ok (r, rest))
     (hnoexp : ∀ s, runLines cfg env (parseText cfg env f) (prologue st) (fileLines text) = .ok s →
-      ∀ toks, expandOpts toks env.environ cfg.percentExpand s.opts = .ok s.opts) :
+      ∀ toks, expandOpts env.inherited toks env.environ cfg.percentExpand s.opts = .ok s.opts) :
     ∃ r', runLines cfg env (parseText cfg env (f + 1)) (prologue st) (fileLines text ++ [matchAllLine]) = .ok r' ∧
       r'.opts = r.opts ∧ r'.log = r.log ∧ r'.final = r.final ∧ r'.matching = r.matching := by
   simp only [runHandler, htext, List.foldlM, bind, Except.bind, pure, Except.pure] at hinc
